@@ -139,7 +139,15 @@ fn bedgraph_inputs() -> Vec<(String, String)> {
     // non-finite values are outside C01's domain but legal in a file: the converters must still
     // print the same text whatever the thread count
     let t5 = "chr1\t0\t5\tinf\nchr1\t5\t6\t-inf\nchr1\t10\t20\tNaN\nchr10\t7\t8\t1\nchr2\t1\t2\tNaN\nchr2\t2\t3\t2\n".to_string();
-    vec![(t1, sizes.clone()), (t2, sizes.clone()), (t3, sizes.clone()), (t4, sizes4), (t5, sizes)]
+    // input 5 (used by four explicit configurations only): more records on one chromosome than a
+    // section's 16-bit item count can express, converted with --items-per-slot 70000
+    let mut t6 = String::new();
+    for i in 0..70_000u32 {
+        t6.push_str(&format!("chr1\t{}\t{}\t{}\n", 2 * i, 2 * i + 1, (i % 97) as f32 * 0.5));
+    }
+    t6.push_str("chr10\t7\t9\t1\nchr2\t1\t2\t2\n");
+    let sizes6 = "chr1\t200000\nchr10\t2000\nchr2\t500\n".to_string();
+    vec![(t1, sizes.clone()), (t2, sizes.clone()), (t3, sizes.clone()), (t4, sizes4), (t5, sizes), (t6, sizes6)]
 }
 
 fn bed_inputs() -> Vec<(String, String)> {
@@ -204,6 +212,9 @@ fn c16_all(quick: bool) -> Vec<C16Case> {
             }
         }
     }
+    for (threads, parallel, single_pass, ucsc) in [(1usize, "no", false, false), (6, "yes", false, true), (2, "auto", true, false), (16, "no", true, true)] {
+        v.push(C16Case { bed: false, input: 5, threads, parallel: s(parallel), single_pass, inmemory: threads == 6, uncompressed: threads == 2, block_size: 256, zooms: false, multicall: ucsc, ucsc, stdin: false });
+    }
     v
 }
 
@@ -244,11 +255,12 @@ impl Check for C16 {
         if c.uncompressed {
             argv.push(if c.ucsc { s("-unc") } else { s("--uncompressed") });
         }
+        let ips = if !c.bed && c.input == 5 { 70_000 } else { 3 };
         if c.ucsc {
             argv.push(format!("-blockSize={}", c.block_size));
-            argv.push(s("-itemsPerSlot=3"));
+            argv.push(format!("-itemsPerSlot={}", ips));
         } else {
-            argv.extend([s("--block-size"), c.block_size.to_string(), s("--items-per-slot"), s("3")]);
+            argv.extend([s("--block-size"), c.block_size.to_string(), s("--items-per-slot"), ips.to_string()]);
         }
         if c.zooms {
             argv.extend([s("--zooms"), s("10,40")]);
@@ -283,7 +295,7 @@ impl Check for C16 {
                 if d.main.block_size == c.block_size && (d.uncompress_buf == 0) == c.uncompressed {
                     out.count("files_honouring_block_size_and_compression", 1);
                 }
-                if d.main.items_per_slot == 3 {
+                if d.main.items_per_slot == ips {
                     out.count("files_honouring_items_per_slot", 1);
                 }
                 for p in d.problems.iter().take(2) {
@@ -420,8 +432,9 @@ impl Check for C16 {
             if got_norm != lib {
                 out.fail("restricted_output_differs_from_range_query", &tags, format!("{:?}: tool printed {:?}, library range query gives {:?}", a, got_norm, lib));
             }
-            // and the must-include set from the input text
-            for l in text.lines() {
+            // and the must-include set from the input text (quadratic: small inputs only; the large
+            // input is judged by the comparison with the library's range query above)
+            for l in text.lines().take(if text.len() > 200_000 { 0 } else { usize::MAX }) {
                 let f: Vec<&str> = l.split('\t').collect();
                 let (cs, ce): (u32, u32) = (f[1].parse().unwrap(), f[2].parse().unwrap());
                 if f[0] == chrom && cs < qe && ce > qs && qs < qe {
@@ -499,7 +512,7 @@ impl Check for C16 {
                         }
                         // every input record strictly overlapping a region appears (clipped) for that region
                         for (chrom, qs, qe, _) in &regs {
-                            for l in text.lines() {
+                            for l in text.lines().take(if text.len() > 200_000 { 0 } else { usize::MAX }) {
                                 let f: Vec<&str> = l.split('\t').collect();
                                 let (cs, ce): (u32, u32) = (f[1].parse().unwrap(), f[2].parse().unwrap());
                                 if f[0] == chrom && cs < *qe && ce > *qs {
@@ -620,7 +633,9 @@ pub fn c15_tool(t: &MergeTool, out: &mut Outcome) {
             chroms: content.iter().map(|(n, items)| EncChrom { name: n.clone(), size: MLEN, wig: vec![WigSec::T1(items.clone())], bed: vec![] }).collect(),
             chrom_block: 64,
             chrom_level_order: false,
-            chrom_ids_in_given_order: false,
+            // every other input lists its chromosomes in another order than byte order (as files
+            // written from input sorted by start only do)
+            chrom_ids_in_given_order: k % 2 == 1,
             fanout: 4,
             placement: Placement::LevelOrder,
             zooms: vec![],
@@ -817,6 +832,17 @@ pub fn avg_regions(k: usize) -> Vec<(String, u32, u32, String)> {
             (s("chr2"), 0, 8, s("x y  z")),
             (s("chr1"), 8, 16, s("plain")),
         ],
+        // 41 rows, one of them 40 KB long (its name): longer than every buffer used to find the
+        // line ends at which the parallel path cuts the file
+        5 => {
+            let mut v = vec![];
+            for n in 0..41u32 {
+                let st = (n * 4) % 180;
+                let name = if n == 20 { "N".repeat(40_000) } else { format!("q{}", n) };
+                v.push((s(if n % 2 == 1 { "chr2" } else { "chr1" }), st, st + 8, name));
+            }
+            v
+        }
         // 3 000 regions (chunks of the parallel path hold hundreds of rows each, so chunks are being
         // read while others are set up), some reaching beyond the 200-base chromosomes
         4 => {
@@ -849,6 +875,8 @@ pub fn avg_regions(k: usize) -> Vec<(String, u32, u32, String)> {
 pub fn avg_tool_cases(quick: bool) -> Vec<AvgTool> {
     let mut v = vec![];
     v.push(AvgTool { file: 0, regions: 4, namecol: None, min_max: true, final_newline: true });
+    v.push(AvgTool { file: 0, regions: 5, namecol: None, min_max: false, final_newline: true });
+    v.push(AvgTool { file: 0, regions: 5, namecol: Some(s("interval")), min_max: true, final_newline: false });
     v.push(AvgTool { file: 0, regions: 4, namecol: Some(s("interval")), min_max: false, final_newline: false });
     for file in 0..2 {
         for regions in 0..4 {
